@@ -90,6 +90,8 @@ pub enum Ev {
     PacketDropped { reason: String },
     DatagramDropped { reason: String, len: u16 },
     Duplicate { space: Space, pn: u64 },
+    /// a Retry packet reached the connection (it may still be discarded: then a PacketDropped follows)
+    RetryReceived,
     TpReceived {
         bidi_local: u64,
         bidi_remote: u64,
@@ -440,6 +442,8 @@ impl event::Subscriber for EventTap {
     ) {
         if let Some((space, pn)) = hdr(&e.packet_header) {
             self.push(meta, Ev::PacketReceived { space, pn });
+        } else if matches!(e.packet_header, events::PacketHeader::Retry { .. }) {
+            self.push(meta, Ev::RetryReceived);
         }
     }
 
